@@ -782,7 +782,7 @@ class Dosini(object):
                 else:
                     optimizer[translated_key] = value_to_bool(value, key)
                 workflowAttributes['optimizer'] = optimizer
-            elif key in ['replicate', 'repeatRetries', 'maxRestarts']:
+            elif key in ['replicate', 'repeatRetries', 'max-restarts']:
                 workflowAttributes[translated_key] = value_to_int(value, key)
             elif key == 'repeat-interval':
                 if value is not None:
